@@ -51,6 +51,13 @@ func genEBP(r *gen.Rand, cable bool, flags byte) ref.EBP {
 	default:
 		e.Reserved = r.Bytes(r.Intn(150))
 	}
+	if r.Chance(12) {
+		// a reserved tail that brings the body to the largest lengths the 8-bit length byte can announce
+		e.Reserved = nil
+		if body := len(e.Bytes()) - 2; body < 250 {
+			e.Reserved = r.Bytes(r.PickInt([]int{250, 252, 253, 254, 255, 255}) - body)
+		}
+	}
 	return e
 }
 
@@ -260,8 +267,8 @@ func timeCase(c *mon.Ctx, t time.Time, class string) {
 }
 
 func run(c *mon.Ctx) {
-	c.Rule("EBPs built from ground truth by a reference encoder: all 256 flag bytes x both flavours x grouping chains of 1..8 ids x reserved tails (0..4, occasionally up to 149 bytes), decoded, compared getter by getter, re-encoded; the same field values built through the setter API and round-tripped; instants over the NTP-representable range at second / era / fraction boundaries and PRNG-chosen. distinct non-trivial = distinct (flavour, flags byte, chain length, has reserved tail) / (time boundary class)")
-	c.Assume("EBPs stay within 181 bytes (what fits in a TS adaptation field); the library's flag setters are set-only so built objects never clear a flag; EBPSuccessReadTime (wall clock) is ignored")
+	c.Rule("EBPs built from ground truth by a reference encoder: all 256 flag bytes x both flavours x grouping chains of 1..8 ids x reserved tails (0..4, occasionally up to 149 bytes, occasionally filling the body to 250..255 bytes), decoded, compared getter by getter, re-encoded; the same field values built through the setter API and round-tripped; instants over the NTP-representable range at second / era / fraction boundaries and PRNG-chosen. distinct non-trivial = distinct (flavour, flags byte, chain length, has reserved tail) / (time boundary class)")
+	c.Assume("EBP bodies go up to the 255 bytes the length byte can announce; the library's flag setters are set-only so built objects never clear a flag; EBPSuccessReadTime (wall clock) is ignored")
 	per := c.N(12, 20000)
 	c.Exhaustive("all 256 flag bytes x both flavours", 512)
 	c.Stream("by-flags", 512, func(i int, r *gen.Rand) {
@@ -270,7 +277,7 @@ func run(c *mon.Ctx) {
 			e := genEBP(r, cable, flags)
 			decode(c, &e)
 			built(c, r, &e)
-			if c.Class(fmt.Sprintf("cable=%v/flags=%02x/chain=%d/tail=%v", cable, flags, len(e.Groups), len(e.Reserved) > 0)) && c.WantSample() && flags&0x18 == 0x18 && len(e.Reserved) < 3 {
+			if c.Class(fmt.Sprintf("cable=%v/flags=%02x/chain=%d/tail=%v/maxlen=%v", cable, flags, len(e.Groups), len(e.Reserved) > 0, len(e.Bytes()) >= 255)) && c.WantSample() && flags&0x18 == 0x18 && len(e.Reserved) < 3 {
 				c.Sample(func() interface{} {
 					return wit{mon.Hex(e.Bytes()), shape(&e), "time " + ref.NTPInstant(e.Sec, e.Frac).Format(time.RFC3339Nano)}
 				})
